@@ -186,6 +186,10 @@ func (g ctConfig) String() string {
 }
 
 // buildCTCases builds, for one configuration, the wrong codes W_k whose first differing character is at k.
+// families: with both==false only "rest-equal" (first k characters right, character k wrong, rest right) is
+// generated for counting runs — the shape an early exit distinguishes; thorough adds "rest-different".
+var ctBothFamilies = false
+
 func buildCTCases(rng *gen.RNG, g ctConfig, count bool, id *int) []ctCase {
 	key := rng.Bytes(20)
 	sec := ref.Base32Encode(key)
@@ -240,6 +244,9 @@ func buildCTCases(rng *gen.RNG, g ctConfig, count bool, id *int) []ctCase {
 			"rest-equal":     func(i int) byte { return E[i] },
 			"rest-different": func(i int) byte { return '0' + (E[i]-'0'+3)%10 },
 		} {
+			if count && !ctBothFamilies && fam == "rest-different" {
+				continue
+			}
 			b := []byte(E)
 			b[k] = '0' + (E[k]-'0'+1+byte(rng.Intn(8)))%10
 			for i := k + 1; i < n; i++ {
@@ -438,7 +445,9 @@ func runC09(c *Ctx) {
 		judgeWatch(c, watch, o, "native")
 	}
 	// ---- (b) instruction-count differential, native entry points
-	cfgs := []ctConfig{{"hotp", 6, 1, 0, false}, {"totp", 8, 0, 1, false}, {"ocra", 10, 0, 0, false}}
+	// both rendering paths of the library (<= 8 digits / > 8 digits) are covered in quick
+	cfgs := []ctConfig{{"hotp", 10, 1, 0, false}, {"totp", 9, 0, 1, false}, {"ocra", 6, 0, 0, false}, {"hotp", 6, 0, 2, false}, {"totp", 8, 1, 0, false}}
+	ctBothFamilies = c.Thorough
 	if c.Thorough {
 		cfgs = nil
 		for _, t := range []string{"hotp", "totp", "ocra"} {
